@@ -122,6 +122,20 @@ CLAIMED = {
          "main theorem: a handler's own Content-Length is truthful; trusted: Coq kernel, extraction, lib/srv.py, python strict parser",
     technique="Coq proof over executable model + differential correspondence (extracted OCaml vs real lighttpd over loopback, fault-injected) + strict RFC 9112 parser monitor",
     design="5/C04"),
+ "C10": dict(
+    text="Coq theorems over an executable model of the backend-response side: the FastCGI record layer as mod_fastcgi.c reads it (content = exactly the "
+         "STDOUT content for all records, paddings and trailing data; a stream cut anywhere before the last byte of END_REQUEST is never done) and the "
+         "delimiting of HTTP-style backend bodies (Content-Length exact / short is broken, chunked bodies decode to the framed blocks); client-side "
+         "framing shared with C04; tied by differential correspondence against the real lighttpd with scripted FastCGI / HTTP / SCGI backends (records "
+         "of every size with padding that looks like records, interleaved STDERR/unknown records, boundary-aimed TCP segmentation, truncation/reset at "
+         "aimed and random offsets, malformed framing) x stream-response-body 0/1/2, judged by C04's strict client parser and a monitor: same status, "
+         "end-to-end headers and body; broken streams never arrive as complete 2xx/3xx; the next pipelined request is unaffected",
+    note="PARTIAL: response-head translation (Status:, Location, NPH, 1xx, trailers, hop-by-hop) is monitor-only; incremental parsing is tied to the "
+         "whole-stream model by correspondence; 1 known finding (partial body under a computed Content-Length when the backend fails before headers "
+         "were sent); invalid backend header lines are skipped by lighttpd and not judged; HTTP/2 clients, AJP13, uwsgi, CGI (see C04) not run here; "
+         "trusted: Coq kernel, extraction, lib/srv.py, lib/backend.py, python monitor",
+    technique="Coq proof over executable model + differential correspondence (extracted OCaml vs real lighttpd with scripted backends) + relay monitor",
+    design="5/C10"),
  "C16": dict(
     text="Coq theorems over an executable model of mod_auth.c's decision logic (rule lookup, Basic decode incl. li_base64_dec, Digest parameter scanner, "
          "parameter/realm/algorithm/uri/response-format checks, nonce timestamp window and nonce-secret recomputation, response recomputation, "
